@@ -18,6 +18,9 @@ CONFIGS = {
                       "material_basis": "volume", "material_unit": "cm3", "temperature_unit": "°C"},
 }
 
+# adsorption (0) / desorption (1) marks of the three abstract points: both branches, one branch only, user-assigned
+BRANCH_PATTERNS = {"two": (0, 0, 1), "all-ads": (0, 0, 0), "all-des": (1, 1, 1), "user": (1, 0, 1)}
+
 ISO_CLASSES = {"point": "pygaps.core.pointisotherm.PointIsotherm", "model": "pygaps.core.modelisotherm.ModelIsotherm",
                "base": "pygaps.core.baseisotherm.BaseIsotherm"}
 
@@ -94,9 +97,10 @@ class RT:
                                       "loading_range": (Num.atom("lr0"), Num.atom("lr1")), "rmse": Num.atom("rmse")}, None)
 
     def mk_frame(self):
+        marks = BRANCH_PATTERNS[getattr(self, "branch_pattern", "two")]
         return MiniFrame({"pressure": [Num.atom("p0"), Num.atom("p1"), Num.atom("p2")],
                           "loading": [Num.atom("l0"), Num.atom("l1"), Num.atom("l2")],
-                          "branch": [Num.const(0), Num.const(0), Num.const(1)],
+                          "branch": [Num.const(b) for b in marks],
                           "enthalpy": [Num.atom("h0"), docsim.NAN, Num.atom("h2")],
                           "note": [Tok("c0"), Tok("c1"), Tok("c2")],
                           "unset": [docsim.NAN, docsim.NAN, docsim.NAN]})
@@ -215,6 +219,29 @@ FORMATS = {
 }
 
 
+CTOR_BRANCH_WORDS = {"ads": 0, "des": 1}
+_PROTO = {}
+
+
+def ctor_branch_protocol(I):
+    """PointIsotherm.__init__: `branch == 'ads'` stores the constant 0 into data_raw['branch'], `branch == 'des'` the constant 1
+    (decided on the syntax tree of the current source, cached per model)"""
+    import ast
+    model = I.model
+    if id(model) in _PROTO:
+        return _PROTO[id(model)]
+    init = model.cls("pygaps.core.pointisotherm.PointIsotherm").find_method("__init__")
+    found = {}
+    for n in ast.walk(init.node):
+        if isinstance(n, ast.If) and isinstance(n.test, ast.Compare) and len(n.test.ops) == 1 and isinstance(n.test.ops[0], ast.Eq) \
+                and ast.unparse(n.test.left) == "branch" and isinstance(n.test.comparators[0], ast.Constant) \
+                and n.test.comparators[0].value in CTOR_BRANCH_WORDS and len(n.body) == 1 and isinstance(n.body[0], ast.Assign) \
+                and ast.unparse(n.body[0].targets[0]) == "self.data_raw['branch']" and isinstance(n.body[0].value, ast.Constant):
+            found[n.test.comparators[0].value] = n.body[0].value.value
+    _PROTO[id(model)] = found == CTOR_BRANCH_WORDS
+    return _PROTO[id(model)]
+
+
 def compare(I, kind, cons, orig, iso):
     """list of (difference class, human text) between what reached the constructor and the original content"""
     out = []
@@ -237,6 +264,15 @@ def compare(I, kind, cons, orig, iso):
             out.append((f"extra:{key}", f"an extra '{key}' = {I.describe(kw[gkeys[key]])} reaches the constructor"))
         elif not veq(I, kw[gkeys[key]], orig[okeys[key]]):
             out.append((f"value:{key}", f"'{key}' comes back as {I.describe(kw[gkeys[key]])}, exported {I.describe(orig[okeys[key]])}"))
+    if kind == "point" and isinstance(data, MiniFrame) and "branch" not in data.cols and "branch" not in okeys \
+            and kw.get(gkeys.get("branch")) in CTOR_BRANCH_WORDS and ctor_branch_protocol(I):
+        # constructor protocol (verified on PointIsotherm.__init__ by ctor_branch_protocol): branch='ads' / 'des' without a
+        # branch column means every point carries the mark 0 / 1.  branch='guess' is data dependent and stays a difference.
+        mark = CTOR_BRANCH_WORDS[kw[gkeys["branch"]]]
+        cols = dict(data.cols)
+        cols["branch"] = [Num.const(mark)] * data.nrows
+        data = MiniFrame(cols, data.tags)
+        out = [d for d in out if d[0] != "extra:branch"]
     if kind == "point":
         want = iso.attrs["data_raw"]
         for d in frame_diff(I, data, want):
